@@ -1,14 +1,19 @@
 #!/usr/bin/env bash
-# tools/all_seeds.sh [pattern]: applies every stored seeded change to /repo in turn (reverting each), runs the quick
-# check of the property it breaks with VERIF_NO_REPLAY=1 (generated search only, no stored counterexamples) and
-# writes one line per change to seeded/RESULTS.txt.
+# tools/all_seeds.sh [glob]   (BENCH=1: use the scratch bench instead of /repo)
+# Applies every stored seeded change in turn (reverting each), runs the quick check of the property it breaks with
+# VERIF_NO_REPLAY=1 (generated search only, no stored counterexamples) and writes one line per change to
+# seeded/RESULTS.txt.
 cd /verif
 OUT=seeded/RESULTS.txt
 : > $OUT.tmp
 for d in seeded/${1:-C}*/; do
   id=$(basename $d)
   prop=$(python3 -c "import json;print(json.load(open('$d/meta.json'))['property'])")
-  r=$(VERIF_NO_REPLAY=1 tools/try_seed.sh /verif/$d/patch.diff $prop 2>&1 | grep RESULT | sed 's/^RESULT [^ ]* //')
+  if [ -n "${BENCH:-}" ]; then
+    r=$(VERIF_NO_REPLAY=1 tools/bench.sh try /verif/$d/patch.diff $prop 2>&1 | grep RESULT | sed 's/^RESULT [^ ]* //')
+  else
+    r=$(VERIF_NO_REPLAY=1 tools/try_seed.sh /verif/$d/patch.diff $prop 2>&1 | grep RESULT | sed 's/^RESULT [^ ]* //')
+  fi
   echo "$id $r" | cut -c1-300 >> $OUT.tmp
 done
 mv $OUT.tmp $OUT
